@@ -21,22 +21,52 @@ CONSTANTS NB,         \* buffer object ids are 1..NB (informative only)
 
 Trace == ndJsonDeserialize("trace.ndjson")
 
-VARIABLES i, hr, hb, active, viol, cnt
-vars == <<i, hr, hb, active, viol, cnt>>
+VARIABLES i, hr, hb, active, viol, vcnt, cnt
+vars == <<i, hr, hb, active, viol, vcnt, cnt>>
 
 Kinds == {"begin", "end", "acquire", "existing", "flush", "release", "get", "put"}
+VKinds == {"Harness.RenderBeginTwice", "OneOwner.HeldAfterReturn", "OneOwner.SecondAcquire",
+           "ExclusiveBuffer.AcquireWhileHeld", "ExclusiveBuffer.UseNotHeld", "ExclusiveBuffer.UseAfterRelease",
+           "ExclusiveBuffer.ReleaseNotHeld", "ExclusiveBuffer.BytesAcquireWhileHeld", "ExclusiveBuffer.BytesReleaseNotHeld",
+           "NoCarryOver.DirtyAcquire", "NoCarryOver.WrongWriter", "NoCarryOver.DirtyBytesBuffer", "NoCarryOver.PutWithoutReset"}
 
 Init == /\ i = 0
         /\ hr = {} /\ hb = {}
         /\ active = {} /\ viol = <<>>
+        /\ vcnt = [k \in VKinds |-> 0]
         /\ cnt = [k \in Kinds |-> 0]
 
-V(line, kind) == [line |-> line, kind |-> kind]
 \* optional fields: an event kind that has no use for a field may omit it
 IsDirty(e) == "dirty" \in DOMAIN e /\ e.dirty
 WriterOf(e) == IF "w" \in DOMAIN e THEN e.w ELSE 0
 BufOf(e) == IF "buf" \in DOMAIN e THEN e.buf ELSE 0
-AddIf(s, c, v) == IF c THEN Append(s, v) ELSE s
+
+P(c, k) == IF c THEN <<k>> ELSE <<>>
+
+\* the violation kinds event e (of render r on buffer b) commits in the current state
+Fired(e, r, b) ==
+    CASE e.ev = "begin"    -> P(r \in active, "Harness.RenderBeginTwice")
+      [] e.ev = "end"      -> P(Holds(hr, r) \/ Holds(hb, r), "OneOwner.HeldAfterReturn")
+      [] e.ev = "acquire"  -> P(~GetLegal(hr, r, b), "ExclusiveBuffer.AcquireWhileHeld")          \* GetBuffer: Get + Reset
+                              \o P(IsDirty(e), "NoCarryOver.DirtyAcquire")
+                              \o P(CheckWriter /\ WriterOf(e) # 0 /\ WriterOf(e) # r, "NoCarryOver.WrongWriter")
+                              \o P(Holds(hr, r), "OneOwner.SecondAcquire")
+      [] e.ev = "existing" -> P(~UseLegal(hr, r, b), "ExclusiveBuffer.UseNotHeld")                \* GetBuffer: the writer already is a *Buffer
+      [] e.ev = "flush"    -> P(~UseLegal(hr, r, b), "ExclusiveBuffer.UseAfterRelease")           \* ReleaseBuffer: b.Flush()
+      [] e.ev = "release"  -> P(~UseLegal(hr, r, b), "ExclusiveBuffer.ReleaseNotHeld")            \* ReleaseBuffer: bufferPool.Put(b)
+      [] e.ev = "get"      -> P(~GetLegal(hb, r, b), "ExclusiveBuffer.BytesAcquireWhileHeld")     \* templ.GetBuffer (bytes.Buffer pool):
+                              \o P(IsDirty(e), "NoCarryOver.DirtyBytesBuffer")                    \*   the acquired bytes.Buffer must be empty
+      [] e.ev = "put"      -> P(~UseLegal(hb, r, b), "ExclusiveBuffer.BytesReleaseNotHeld")       \* templ.ReleaseBuffer: Reset + Put
+                              \o P(IsDirty(e), "NoCarryOver.PutWithoutReset")
+
+\* viol lists the first MaxPerKind offending lines of every kind (a broken tree produces one per render, and
+\* an ever growing sequence in every state would make the validation quadratic); vcnt counts all of them
+MaxPerKind == 15
+RECURSIVE Record(_, _, _)
+Record(s, n, ks) == IF ks = <<>> THEN s
+                    ELSE Record(IF vcnt[Head(ks)] < MaxPerKind THEN Append(s, [line |-> n, kind |-> Head(ks)]) ELSE s, n, Tail(ks))
+RECURSIVE Count(_, _)
+Count(c, ks) == IF ks = <<>> THEN c ELSE Count([c EXCEPT ![Head(ks)] = @ + 1], Tail(ks))
 
 Step ==
     /\ i < Len(Trace)
@@ -44,47 +74,15 @@ Step ==
            n == i + 1
            r == e.r
            b == BufOf(e)
+           f == Fired(e, r, b)
        IN
        /\ i' = n
        /\ cnt' = [cnt EXCEPT ![e.ev] = @ + 1]
-       /\ CASE e.ev = "begin" ->
-                 /\ active' = active \cup {r}
-                 /\ viol' = AddIf(viol, r \in active, V(n, "Harness.RenderBeginTwice"))
-                 /\ UNCHANGED <<hr, hb>>
-            [] e.ev = "end" ->
-                 /\ active' = active \ {r}
-                 /\ viol' = AddIf(viol, Holds(hr, r) \/ Holds(hb, r), V(n, "OneOwner.HeldAfterReturn"))
-                 /\ UNCHANGED <<hr, hb>>
-            [] e.ev = "acquire" ->                                   \* GetBuffer: Get + Reset
-                 /\ hr' = HGet(hr, r, b)
-                 /\ viol' = AddIf(AddIf(AddIf(AddIf(viol,
-                                ~GetLegal(hr, r, b), V(n, "ExclusiveBuffer.AcquireWhileHeld")),
-                                IsDirty(e), V(n, "NoCarryOver.DirtyAcquire")),
-                                CheckWriter /\ WriterOf(e) # 0 /\ WriterOf(e) # r, V(n, "NoCarryOver.WrongWriter")),
-                                Holds(hr, r), V(n, "OneOwner.SecondAcquire"))
-                 /\ UNCHANGED <<hb, active>>
-            [] e.ev = "existing" ->                                  \* GetBuffer: the writer already is a *Buffer
-                 /\ viol' = AddIf(viol, ~UseLegal(hr, r, b), V(n, "ExclusiveBuffer.UseNotHeld"))
-                 /\ UNCHANGED <<hr, hb, active>>
-            [] e.ev = "flush" ->                                     \* ReleaseBuffer: b.Flush()
-                 /\ viol' = AddIf(viol, ~UseLegal(hr, r, b), V(n, "ExclusiveBuffer.UseAfterRelease"))
-                 /\ UNCHANGED <<hr, hb, active>>
-            [] e.ev = "release" ->                                   \* ReleaseBuffer: bufferPool.Put(b)
-                 /\ hr' = HDrop(hr, r, b)
-                 /\ viol' = AddIf(viol, ~UseLegal(hr, r, b), V(n, "ExclusiveBuffer.ReleaseNotHeld"))
-                 /\ UNCHANGED <<hb, active>>
-            [] e.ev = "get" ->                                       \* templ.GetBuffer (bytes.Buffer pool)
-                 /\ hb' = HGet(hb, r, b)
-                 /\ viol' = AddIf(AddIf(viol,
-                                ~GetLegal(hb, r, b), V(n, "ExclusiveBuffer.BytesAcquireWhileHeld")),
-                                IsDirty(e), V(n, "NoCarryOver.DirtyBytesBuffer"))
-                 /\ UNCHANGED <<hr, active>>
-            [] e.ev = "put" ->                                       \* templ.ReleaseBuffer: Reset + Put
-                 /\ hb' = HDrop(hb, r, b)
-                 /\ viol' = AddIf(AddIf(viol,
-                                ~UseLegal(hb, r, b), V(n, "ExclusiveBuffer.BytesReleaseNotHeld")),
-                                IsDirty(e), V(n, "NoCarryOver.PutWithoutReset"))
-                 /\ UNCHANGED <<hr, active>>
+       /\ viol' = Record(viol, n, f)
+       /\ vcnt' = Count(vcnt, f)
+       /\ active' = CASE e.ev = "begin" -> active \cup {r} [] e.ev = "end" -> active \ {r} [] OTHER -> active
+       /\ hr' = CASE e.ev = "acquire" -> HGet(hr, r, b) [] e.ev = "release" -> HDrop(hr, r, b) [] OTHER -> hr
+       /\ hb' = CASE e.ev = "get" -> HGet(hb, r, b) [] e.ev = "put" -> HDrop(hb, r, b) [] OTHER -> hb
 
 Next == Step
 Spec == Init /\ [][Next]_vars
@@ -94,7 +92,7 @@ Spec == Init /\ [][Next]_vars
 ExclusiveNow == Exclusive(hr) /\ Exclusive(hb)
 
 Done == i = Len(Trace)
-Report == Done => PrintT(<<"TRACE", ToJson([lines |-> i, viol |-> viol, cnt |-> cnt,
+Report == Done => PrintT(<<"TRACE", ToJson([lines |-> i, viol |-> viol, vcnt |-> vcnt, cnt |-> cnt,
                                             exclusive |-> ExclusiveNow,
                                             stillheld |-> Cardinality(hr) + Cardinality(hb)])>>)
 =============================================================================
